@@ -247,9 +247,14 @@ class C13(CheckBase):
         if len(outs) == 2 and outs[0] != outs[1]:
             diff = [k for k in outs[0] if outs[0][k] != outs[1][k]]
             key = "C13/bodies-change-identification"
-            if case["two_sided"] == "blank" and dd and "catalogue@16" in placed and "catalogue@17" in placed:
-                # known finding: with a blank second side, catalogue-like file data in sectors 16-17 of side 0 is
-                # taken for the second side's catalogue of a 16-sectors-per-track layout
+            ga, gb = outs[0].get("geometry", b""), outs[1].get("geometry", b"")
+            if (case["two_sided"] == "blank" and dd and ga != gb
+                    and sorted([b"16 sectors per track" in ga, b"16 sectors per track" in gb]) == [False, True]):
+                # known finding: with a blank second side, file data in sectors 16-17 of side 0 that passes for a
+                # catalogue (placed on purpose by the `catalogue16` imitation, or by chance: an imitated Opus table in
+                # sector 16 followed by suitable random bytes) is taken for the second side's catalogue of a
+                # 16-sectors-per-track layout.  The class is recognised by its effect: one body assignment gives
+                # N x 18, the other N x 16 sectors per track.
                 key = "C13/side0-body-at-16-taken-for-side1-catalogue"
             v.fail(key,
                    "output of %s changed when only file bodies changed (%s)" % (diff, placed[:4]),
